@@ -265,9 +265,9 @@ func tail(s string, n int) string {
 
 func (co *coordinator) gateChain(def *backendDef) {
 	r := co.r
-	var hangsSeen []record
+	var runs []record
 	for attempt := 0; attempt < 2; attempt++ {
-		out, code, timedOut := ev.Child(childEnv("gate", def.Name, 0, 0), 120*time.Second)
+		out, code, timedOut := ev.Child(childEnv("gate", def.Name, 0, 0), 240*time.Second)
 		p := parseChild(out)
 		var g *record
 		for i := range p.recs {
@@ -280,36 +280,61 @@ func (co *coordinator) gateChain(def *backendDef) {
 		if g == nil {
 			site, head, ok := crashSite(out)
 			if ok && code != 0 {
-				r.Violation("panic/"+site, fmt.Sprintf("[%s] the process died in the stat-gate scenario: %s\n%s", def.Name, head, ev.PerkeepFrames(out)),
+				r.Violation("panic/"+site, fmt.Sprintf("[%s] the process died in the repeated-failure scenario: %s\n%s", def.Name, head, ev.PerkeepFrames(out)),
 					map[string]any{"case_id": "gate:" + def.Name + ";", "crash": head})
 				return
 			}
 			r.Inconclusive(fmt.Sprintf("gate scenario %s produced no result (code %d, watchdog=%v)\n%s", def.Name, code, timedOut, tail(out, 20)))
 			return
 		}
-		r.Eval(g.Counts["repetitions_done"] + 1)
+		runs = append(runs, *g)
 		if !g.Hang {
-			r.Note("gate_scenarios", def.Label)
-			r.Note("gate_outcomes", def.Label+":no-leak")
-			r.Count("gate_repetitions", g.Counts["repetitions_done"])
-			r.Distinct("gate|" + def.Name)
-			if attempt > 0 {
-				r.Inconclusive(fmt.Sprintf("gate scenario %s hung once and not on the re-run", def.Name))
-			}
-			return
+			break
 		}
-		hangsSeen = append(hangsSeen, *g)
 	}
-	g := hangsSeen[0]
+	g := runs[0]
+	r.Eval(5 * (g.Counts["repetitions_per_phase"] + 1))
 	r.Note("gate_scenarios", def.Label)
-	r.Note("gate_outcomes", def.Label+":leak")
-	r.Count("gate_repetitions", g.Counts["repetitions_done"])
+	r.Count("gate_repetitions", 5*g.Counts["repetitions_per_phase"])
 	r.Distinct("gate|" + def.Name)
-	what := fmt.Sprintf("[%s] package-level stat gate (capacity %d) leaks: %d failing 60-ref stats returned, then repetition %d never returned (healthy stat hung=%d); reproduced in 2 fresh processes. Blocked goroutines:\n%s",
-		def.Name, g.Counts["capacity"], g.Counts["repetitions_done"], g.Counts["hung_at_repetition"], g.Counts["healthy_stat_hung"], g.What)
-	r.Violation("statgate-leak/"+def.Label, what, map[string]any{"case_id": "gate:" + def.Name + ";", "backend": def.Name, "counts": g.Counts,
-		"scenario": "fill 60 blobs; repeat 3*capacity times: StatBlobs(60 refs) with an injected error at its first lower-layer call; then a healthy StatBlobs(60 refs)",
-		"blocked": strings.Split(ev.PerkeepFrames(g.What), "\n")})
+	for _, k := range []string{"stat", "remove", "enumerate", "fetch", "receive"} {
+		if g.Counts[k+"_healthy_call_failed"] > 0 {
+			r.Violation("later-op-fails/"+def.Label+"/repeated-"+k+"-failures",
+				fmt.Sprintf("[%s] after %d failing %s calls a healthy %s call fails", def.Name, g.Counts["repetitions_per_phase"], k, k),
+				map[string]any{"case_id": "gate:" + def.Name + ";", "counts": g.Counts})
+		}
+		if g.Counts[k+"_panics"] > 0 {
+			r.Note("gate_outcomes", def.Label+":"+k+":panics")
+		}
+	}
+	if !g.Hang {
+		r.Note("gate_outcomes", def.Label+":no-leak")
+		return
+	}
+	if len(runs) < 2 {
+		return
+	}
+	again := map[string]bool{}
+	for _, n := range runs[1].Notes {
+		again[n] = true
+	}
+	for _, ph := range g.Notes {
+		if !again[ph] {
+			r.Inconclusive(fmt.Sprintf("gate scenario %s: phase %s hung once and not in the second process", def.Name, ph))
+			continue
+		}
+		r.Note("gate_outcomes", def.Label+":"+ph+":leak")
+		w := map[string]any{"case_id": "gate:" + def.Name + ";", "backend": def.Name, "phase": ph, "counts": g.Counts,
+			"scenario": "fill 60 blobs; per op kind: 3*capacity calls with an injected error at the call's first lower-layer call, each under a watchdog, then one healthy call",
+			"blocked": strings.Split(ev.PerkeepFrames(g.What), "\n")}
+		if ph == "stat" {
+			r.Violation("statgate-leak/"+def.Label, fmt.Sprintf("[%s] package-level stat gate (capacity %d) leaks a slot per failing batched stat: %d failing 60-ref StatBlobs calls returned, the next one never returned (healthy call: %v); reproduced in 2 fresh processes. Blocked goroutines:\n%s",
+				def.Name, g.Counts["capacity"], g.Counts["stat_hung_at_repetition"], g.Counts["stat_healthy_call_hung"] > 0, g.What), w)
+		} else {
+			r.Violation("leak-after-repeated-failures/"+def.Label+"."+ph, fmt.Sprintf("[%s] after %d failing %s calls the next %s call never returned (reproduced in 2 fresh processes). Blocked goroutines:\n%s",
+				def.Name, g.Counts[ph+"_hung_at_repetition"], ph, ph, g.What), w)
+		}
+	}
 }
 
 // tmpfsChain runs the optional ENOSPC scenario (real short writes from a full tmpfs).
